@@ -447,6 +447,10 @@ PROPS = {
         ]
     },
     "C06": {
+        "properties": [
+            "C06",
+            "C06_data"
+        ],
         "domains": [
             {
                 "name": "c06",
@@ -454,12 +458,19 @@ PROPS = {
                 "n_quick": 60,
                 "n_thorough": 900,
                 "model": True
+            },
+            {
+                "name": "c06data",
+                "run_vo": "Model/RunKeyData.vo",
+                "n_quick": 12,
+                "n_thorough": 300,
+                "model": True
             }
         ],
         "trusted": [
             "harness/vh/memfs.go: in-memory implementation of acra's filesystem.Storage (os semantics of ReadDir order, hard links, rename, O_EXCL copy) under the real keystore v1; keystore v2 runs on acra's own backend.NewInMemory",
             "key versions are identified by reading the new key through a second, uncached keystore object right after each generation",
-            "modelled, not verified: master-key encryption of stored keys (C07), ListKeys (current-key listing), public-key reads, export/import, key ring signatures and the directory/redis back ends",
+            "modelled, not verified: master-key encryption of stored keys (C07), export/import, key ring signatures and the directory/redis back ends; C06_data: listings (ListKeys / ListRotatedKeys rows: part, index, state) and current public keys are observations of the model, creation times / purpose / client-id strings and the global listing order are checked by the implementation oracle only; the data theorems compose keystore v2 with the C01 envelope model, keystore v1 data histories are replayed and checked by the oracle (no composed v1 theorem)",
             "Gen/KeyStates.v regenerated from /repo (asn1.NoKey, firstSeqnum via hook, api.KeyStateTransitionValid table, cache size constants)"
         ],
         "assumptions": [
